@@ -116,12 +116,12 @@ def run(ctx, scale=1):
         histories.append(("creation-order", [mk(a), mk(b)]))
     # all sequences of length <= 2 (quick: sampled) / <= 3 (thorough: sampled) over the alphabet
     seq2 = list(itertools.product(range(len(A)), repeat=2))
-    pick2 = rng.sample(seq2, (60 if ctx.quick else 900) * scale)
+    pick2 = rng.sample(seq2, (60 if ctx.quick else 500) * scale)
     for i, j in pick2:
         histories.append(("len2", [A[i], A[j]]))
     for i in range(len(A)):
         histories.append(("len1", [A[i]]))
-    for _ in range((10 if ctx.quick else 2500) * scale):
+    for _ in range((10 if ctx.quick else 1000) * scale):
         histories.append(("len3", [rng.choice(A) for _ in range(3)]))
     for _ in range((8 if ctx.quick else 60) * scale):
         histories.append(("long", [rng.choice(A) for _ in range(rng.choice([50, 120, 400] if not ctx.quick else [40, 80]))]))
